@@ -27,7 +27,7 @@ func init() {
 	props["C11"] = &propDef{
 		header:    "From BE Require Import Corr.CheckC11.",
 		headers:   map[string]string{"E": "From BE Require Import Corr.CheckE2E.", "R": "From BE Require Import Corr.CheckRr."},
-		rule:      "exhaustive boundary grid (doc in 24 boundary values x idx,size in 11 boundary values) plus seeded random triples, entry pairs, roaring pairs and casts; through build and retrieval: every boundary id alone and together with the other in-range boundary ids as documents of 1..4 conjunctions (include-only, exclude-only, mixed) on the k-groups and compact indexes (Retrieve and the recording collector) and on the roaring index (Retrieve, RetrieveDocs, GetRawResult, WithHint with the extreme ids), ids just outside the range offered to AddDocument; a case is non-trivial when the ids involved are accepted and non-zero (conj/rr), when both conjunction ids are < 2^60 (entry), always for casts, when some retrieval returns a non-empty proper subset (through retrieval); distinct = distinct input",
+		rule:      "exhaustive boundary grid (doc in 24 boundary values x idx,size in 11 boundary values) plus seeded random triples, entry pairs, roaring pairs and casts; through build and retrieval: every boundary id alone and together with the other in-range boundary ids as documents of 1..4 conjunctions (include-only, exclude-only, mixed) on the k-groups and compact indexes (Retrieve and the recording collector) and on the roaring index (Retrieve, RetrieveDocs, GetRawResult, WithHint with the extreme ids), ids just outside the range offered to AddDocument; documents of 255, 256, 257 and 300 conjunctions (positions at and beyond the last encodable one); a case is non-trivial when the ids involved are accepted and non-zero (conj/rr), when both conjunction ids are < 2^60 (entry), always for casts, when some retrieval returns a non-empty proper subset (through retrieval); distinct = distinct input",
 		shardSize: 1500,
 		gen: func(tier string, r *Rand, add func(in interface{})) {
 			for _, d := range docs {
@@ -217,6 +217,31 @@ func c11Retrieval(tier string, r *Rand, ids []int64, add func(in interface{})) {
 				}
 			}
 			emit(docs)
+		}
+		// conjunction positions at and beyond the limit (position 255 is the last encodable one): documents
+		// of 255, 256, 257 and 300 conjunctions, each conjunction matched by its own value
+		for _, nconj := range []int{255, 256, 257, 300} {
+			for _, id := range []int64{10, -11} {
+				d := eDoc{ID: id}
+				for k := 0; k < nconj; k++ {
+					d.Cons = append(d.Cons, eConj{{F: 0, Inc: true, V: ivs(1000 + k)}})
+				}
+				docs := []eDoc{{ID: 7, Cons: shapes(1)}, d, {ID: 8, Cons: shapes(2)}}
+				var qs []eQuery
+				for _, k := range []int{0, 1, 254, 255, 256, 257, 299, 300} {
+					qs = append(qs, eQuery{A: []eAssign{{F: 0, V: iv(1000 + k)}}})
+				}
+				qs = append(qs, eQuery{A: []eAssign{{F: 0, V: ivs(1, 1255, 1256)}, {F: 1, V: iv(3)}}})
+				if kind != "rr" {
+					add(eCase{Kind: kind, Policy: "error", Docs: docs, Queries: qs})
+					continue
+				}
+				c := rCase{Fields: []rField{{F: 0, Cont: "default"}, {F: 1, Cont: "default"}}, Docs: docs}
+				for i, q := range qs {
+					c.Ops = append(c.Ops, rOp{S: 0, Op: "reset"}, rOp{S: 0, Op: []string{"retrieve", "docs"}[i%2], A: q.A}, rOp{S: 0, Op: "raw"})
+				}
+				add(c)
+			}
 		}
 		n := 20
 		if tier == "thorough" {
